@@ -301,6 +301,65 @@ theorem C04_seed (cfg : Cfg M K R) (s : CState M R) (o : SubOpts K) (hn : NodupK
         · intro h0; rw [h0]; rfl
       by_cases h0 : sortById s.items = [] <;> simp [h0, this, seedEvents]
 
+/-- A subscriber opening while a write is in flight.  Subscribing (snapshot + bus registration) is one
+atomic step with respect to commits, so it falls before the write's commit, between its commit and
+its publication, or after both (`SubOrder`).  In every case folding what the subscriber is sent onto
+its seed yields the contents at the end of the history — no successful write is lost.  If the
+subscribe step comes first, the write and everything after it is delivered exactly once, as an exact
+edit script of the seed.  If it falls between commit and publication, the seed already contains the
+write, its late event is a stale duplicate that leaves the seeded view unchanged (its new value IS
+the seeded value for its id), and everything after it is an exact edit script of the seed.  If it
+comes last, the seed contains the write and nothing of it is delivered. -/
+theorem C04_subscribe_atomic (cfg : Cfg M K R) (h : EqRefl cfg.ops) (s : CState M R) (w : COp M K)
+    (rest : List (COp M K)) (ord : SubOrder) :
+    (raceBusEvents cfg s w rest ord).foldl applyEv (contents (raceSeedState cfg s w ord)) =
+      contents (Coll.run cfg (Coll.step cfg s w).2 rest).2 ∧
+    (ord = .subFirst →
+      Replay (contents s) (raceBusEvents cfg s w rest ord) (contents (Coll.run cfg (Coll.step cfg s w).2 rest).2)) ∧
+    (ord = .subBetween →
+      (∀ e ∈ eventsOf (Coll.step cfg s w).1,
+        applyEv (contents (Coll.step cfg s w).2) e = contents (Coll.step cfg s w).2 ∧
+        e.new = contents (Coll.step cfg s w).2 e.id) ∧
+      Replay (contents (Coll.step cfg s w).2) (busEvents cfg (Coll.step cfg s w).2 rest)
+        (contents (Coll.run cfg (Coll.step cfg s w).2 rest).2)) ∧
+    (ord = .subLast →
+      Replay (contents (Coll.step cfg s w).2) (raceBusEvents cfg s w rest ord)
+        (contents (Coll.run cfg (Coll.step cfg s w).2 rest).2)) := by
+  have hstep := step_effect cfg h s w
+  have hrest := run_replay cfg h rest (Coll.step cfg s w).2
+  have hall : Replay (contents s) (eventsOf (Coll.step cfg s w).1 ++ busEvents cfg (Coll.step cfg s w).2 rest)
+      (contents (Coll.run cfg (Coll.step cfg s w).2 rest).2) := Replay.append hstep hrest
+  -- the write's events are at most one edit s → s'
+  have hstale : ∀ e ∈ eventsOf (Coll.step cfg s w).1,
+      applyEv (contents (Coll.step cfg s w).2) e = contents (Coll.step cfg s w).2 ∧
+      e.new = contents (Coll.step cfg s w).2 e.id := by
+    intro e he
+    have hedit := step_events_edit cfg h s w e he
+    exact ⟨applyEv_stale hedit, hedit.new_eq⟩
+  refine ⟨?_, ?_, ?_, ?_⟩
+  · cases ord with
+    | subFirst => exact replay_fold hall
+    | subLast => exact replay_fold hrest
+    | subBetween =>
+      simp only [raceBusEvents, raceSeedState, List.foldl_append]
+      have : (eventsOf (Coll.step cfg s w).1).foldl applyEv (contents (Coll.step cfg s w).2) =
+          contents (Coll.step cfg s w).2 := by
+        have gen : ∀ evs : List (CEvent M), (∀ e ∈ evs, applyEv (contents (Coll.step cfg s w).2) e = contents (Coll.step cfg s w).2) →
+            evs.foldl applyEv (contents (Coll.step cfg s w).2) = contents (Coll.step cfg s w).2 := by
+          intro evs
+          induction evs with
+          | nil => intro _; rfl
+          | cons e es ih =>
+            intro hh
+            simp only [List.foldl_cons, hh e (by simp)]
+            exact ih (fun e' he' => hh e' (by simp [he']))
+        exact gen _ (fun e he => (hstale e he).1)
+      rw [this]
+      exact replay_fold hrest
+  · intro ho; subst ho; exact hall
+  · intro ho; subst ho; exact ⟨hstale, hrest⟩
+  · intro ho; subst ho; exact hrest
+
 /-! ## Non-vacuity -/
 
 def exCfg : Cfg Msg Mask (List Nat) := { ops := flatOps, gen := flatGen }
